@@ -284,7 +284,7 @@ class Parser:
             number = token
             if self.current().kind == TokenKind.RBRACE:
                 self.pos += 1
-                return RepeatExact(expr, self.parse_int(number))
+                return RepeatExact(expr, self.parse_repeat_max(number))
 
             self.eat(TokenKind.COMMA)
 
@@ -294,12 +294,14 @@ class Parser:
 
             stop = self.eat(TokenKind.NUMBER)
             self.eat(TokenKind.RBRACE)
-            return RepeatMinMax(expr, self.parse_int(number), self.parse_int(stop))
+            return RepeatMinMax(
+                expr, self.parse_int(number), self.parse_repeat_max(stop)
+            )
 
         if kind == TokenKind.COMMA:
             number = self.eat(TokenKind.NUMBER)
             self.eat(TokenKind.RBRACE)
-            return RepeatMax(expr, self.parse_int(number))
+            return RepeatMax(expr, self.parse_repeat_max(number))
 
         raise PestGrammarSyntaxError("expected a number or a comma", token=token)
 
@@ -315,6 +317,14 @@ class Parser:
             # Same limit and message as pest, where repeat counts are `u32`.
             raise PestGrammarSyntaxError("number cannot overflow u32", token=token)
 
+        return value
+
+    def parse_repeat_max(self, token: Token) -> int:
+        """Return the value of the upper bound of `{n}`, `{,n}` or `{m,n}`."""
+        value = self.parse_int(token)
+        if value == 0:
+            # Same as pest.
+            raise PestGrammarSyntaxError("cannot repeat 0 times", token=token)
         return value
 
     def parse_peek_expression(self, tag: str | None) -> Expression:
